@@ -1740,3 +1740,87 @@ Proof.
       apply in_map_iff in Hel. destruct Hel as (r & <- & _). reflexivity.
   - rewrite HA1. eapply perm_trans; [|exact Hperm]. apply Permutation_flat_map, HB.
 Qed.
+
+(* ====================================================================== whole files with one object table *)
+Section Simple.
+  Variable f : file.
+  Let pes := proc_entries (load_otab f) (load_ktab f) (load_rlog f).
+
+  Lemma proc_entries_simple oes : forall st kts,
+    (forall e, In e oes -> o_alloc e <> 0 -> o_type e <> 1 /\ (o_type e = 6 -> load_rlog f (o_off e) = Ok tt)) ->
+    Forall2 (fun e kt => load_ktab f (o_off e) (o_size e) = Ok kt) (filter is_ktab oes) kts ->
+    pes oes st = Ok {| s_kts := fold_left (fun r t => register t r) kts (s_kts st);
+                       s_fobjs := rev (map (fun e => (o_off e, o_size e)) (filter is_fobj oes)) ++ s_fobjs st;
+                       s_visited := s_visited st; s_pending := s_pending st |}.
+  Proof.
+    induction oes as [|e oes IH]; intros st kts Hno Hk.
+    - cbn [filter] in Hk. inversion Hk; subst. cbn. destruct st; reflexivity.
+    - cbn [pes proc_entries]. fold pes.
+      assert (Hno' : forall e0, In e0 oes -> o_alloc e0 <> 0 ->
+                o_type e0 <> 1 /\ (o_type e0 = 6 -> load_rlog f (o_off e0) = Ok tt)) by (intros; apply Hno; [now right|assumption]).
+      unfold proc_entry. cbn [filter] in *.
+      assert (Hik : is_ktab e = negb (o_alloc e =? 0) && (o_type e =? 2)) by reflexivity.
+      assert (Hif : is_fobj e = negb (o_alloc e =? 0) && (o_type e =? 3)) by reflexivity.
+      rewrite Hik in Hk. rewrite Hif. clear Hik Hif.
+      change E.hyperv_ObjectEntryType_ObjectTable with 1. change E.hyperv_ObjectEntryType_KeyTable with 2.
+      change E.hyperv_ObjectEntryType_File with 3. change E.hyperv_ObjectEntryType_ReplayLog with 6.
+      destruct (Z.eqb_spec (o_alloc e) 0) as [Ha|Ha]; cbn [negb andb] in *.
+      { cbn [bind]. apply IH; assumption. }
+      destruct (Hno e (or_introl eq_refl) Ha) as [Hn1 Hr].
+      destruct (Z.eqb_spec (o_type e) 1); [contradiction|].
+      destruct (Z.eqb_spec (o_type e) 2) as [H2|H2].
+      { inversion Hk as [|? kt ? kts' Hld Hk']; subst. rewrite Hld. cbn [bind].
+        destruct (Z.eqb_spec (o_type e) 3); [lia|]. rewrite (IH _ kts' Hno' Hk'). reflexivity. }
+      destruct (Z.eqb_spec (o_type e) 3) as [H3|H3].
+      { cbn [bind]. rewrite (IH _ kts Hno' Hk). cbn [s_kts s_fobjs s_visited s_pending map rev].
+        rewrite <- app_assoc. reflexivity. }
+      destruct (Z.eqb_spec (o_type e) 6) as [H6|H6].
+      { rewrite (Hr H6). cbn [bind]. apply IH; assumption. }
+      cbn [bind]. apply IH; assumption.
+  Qed.
+
+  Lemma iter_two k st st1 :
+    wl_step (load_otab f) (load_ktab f) (load_rlog f) st = WMore st1 -> s_pending st1 = [] ->
+    wl_iter (load_otab f) (load_ktab f) (load_rlog f) (S k) st = WDone st1.
+  Proof.
+    intros H1 H2. rewrite iter_steps.
+    assert (Hp : exists n, (2 ^ S k = S (S n))%nat).
+    { exists (2 * 2 ^ k - 2)%nat. rewrite Nat.pow_succ_r'. pose proof (Nat.pow_nonzero 2 k ltac:(lia)). lia. }
+    destruct Hp as (n & ->). cbn [wl_steps]. rewrite H1. unfold wl_step at 1. rewrite H2. reflexivity.
+  Qed.
+
+  (* a whole file: two headers, a replay log, ONE object table (as in both real samples) listing key
+     tables (competing ones included), file objects, replay logs and anything ignored, in any order *)
+  Theorem simple_file_roundtrip h1 h2 oes (All : list ktable) (Ts : list stable) F :
+    parse_fhdr (fread f 0 46) = Some h1 -> parse_fhdr (fread f 4096 46) = Some h2 ->
+    h_sig (active_header h1 h2) = 19406868 -> h_ver (active_header h1 h2) = 1024 ->
+    load_rlog f (h_rlo (active_header h1 h2)) = Ok tt ->
+    load_otab f 8192 = Ok oes ->
+    (forall e, In e oes -> o_alloc e <> 0 -> o_type e <> 1 /\ (o_type e = 6 -> load_rlog f (o_off e) = Ok tt)) ->
+    Forall2 (fun e kt => load_ktab f (o_off e) (o_size e) = Ok kt) (filter is_ktab oes) All ->
+    Forall (stable_ok f (fobjs_of oes)) Ts -> NoDup (map st_idx Ts) ->
+    (forall T, In T Ts -> In (kt_of T) All) ->
+    (forall kt, In kt All -> exists T, In T Ts /\ st_idx T = kt_index kt /\ (kt = kt_of T \/ kt_seq kt < st_seq T)) ->
+    Permutation (flat_map (fun T => live_of (st_slots T)) Ts) (flat_forest root_id F) ->
+    NoDup (root_id :: flat_map aids F) -> forest_keys_unique F ->
+    exists p t, open_file f = Ok p /\ p_first p = (h_seq h1 >? h_seq h2) /\ p_ntables p = 1 /\
+                link (p_tables p) = Ok t /\ tree_equiv t (Node (map erase F)).
+  Proof.
+    intros Hh1 Hh2 Hsig Hver Hrl Hot Hno Hk Hok Hnd Hact Hall Hperm Hids Hkeys.
+    destruct (registry_roundtrip f (fobjs_of oes) All Ts F Hok Hnd Hact Hall Hperm Hids Hkeys) as (t & Hlink & Heq).
+    set (st1 := {| s_kts := registry All; s_fobjs := fobjs_of oes; s_visited := [8192]; s_pending := [] |}).
+    assert (Hrun : run_worklist (load_otab f) (load_ktab f) (load_rlog f) (file_fuel f) C.hyperv_OBJECT_TABLE_OFFSET = Ok st1).
+    { unfold run_worklist. change C.hyperv_OBJECT_TABLE_OFFSET with 8192. rewrite Hot. cbn [bind].
+      unfold file_fuel. rewrite (iter_two _ _ st1); [reflexivity| |reflexivity].
+      unfold wl_step, init_state. cbn [s_pending s_kts s_fobjs s_visited].
+      pose proof (proc_entries_simple oes {| s_kts := []; s_fobjs := []; s_visited := [8192]; s_pending := [] |} All Hno Hk) as Hp.
+      unfold pes in Hp. rewrite Hp. cbn [s_kts s_fobjs s_visited s_pending]. rewrite app_nil_r. reflexivity. }
+    eexists. exists t. unfold open_file.
+    change C.hyperv_FIRST_HEADER_OFFSET with 0. change C.hyperv_SECOND_HEADER_OFFSET with 4096. change fhdr_size with 46.
+    rewrite Hh1, Hh2. cbn [of_option bind]. rewrite Hsig, Hver.
+    change (19406868 =? C.hyperv_SIGNATURE_STORAGE_HEADER) with true. change (1024 =? K.supported_version) with true.
+    cbn [negb]. rewrite Hrl. cbn [bind]. rewrite Hrun. cbn [bind].
+    split; [reflexivity|]. cbn [p_first p_ntables p_tables]. split; [reflexivity|]. split; [reflexivity|].
+    split; [|exact Heq]. rewrite active_tables_eq. exact Hlink.
+  Qed.
+End Simple.
